@@ -232,3 +232,94 @@ func H13b() {
 	vAssert(db != nil && len(db.devDataFieldDescs) == 1 && db.devDataFieldDescs[0].size == byte(b1), "C13.dev.second-slot-descriptors")
 	vReached("end")
 }
+
+// H13c: a redefinition of slot k (parameter) with an arbitrary shape: 0..2
+// fields of 1..3 bytes, either byte order, with or without the developer
+// flag and 0..2 developer fields of 1..3 bytes; then a data record of slot k
+// (arbitrary bytes) and a data record of the next slot. The latest
+// definition decides how many bytes the first record has (0 fields: the
+// header byte alone), the next slot still reads its own length.
+func H13c() {
+	var d decoder
+	f, _ := NewFile(FileTypeActivity, NewHeader(V20, true))
+	d.file = f
+	for k := 0; k < 16; k++ {
+		d.defmsgs[k] = vSlotDef(k)
+	}
+	k := vParam("k")
+	j := (k + 1) % 16
+	big := vBool()
+	nf := vConcretize(vInt(0, 2))
+	fsz := vConcretize(vInt(1, 3))
+	dev := vBool()
+	nd, dsz := 0, 0
+	if dev {
+		nd = vConcretize(vInt(0, 2))
+		dsz = vConcretize(vInt(1, 3))
+	}
+	g := uint16(vSlotMsgs[k])
+	hdr := byte(0x40 | k)
+	if dev {
+		hdr |= 0x20
+	}
+	s := []byte{hdr, 0, 0, byte(g), byte(g >> 8), byte(nf)}
+	if big {
+		s[2], s[3], s[4] = 1, byte(g>>8), byte(g)
+	}
+	for i := 0; i < nf; i++ {
+		s = append(s, byte(250+i), byte(fsz), 0x0D)
+	}
+	if dev {
+		s = append(s, byte(nd))
+		for i := 0; i < nd; i++ {
+			s = append(s, byte(i), byte(dsz), 0)
+		}
+	}
+	s = append(s, byte(k))
+	for i := 0; i < nf*fsz; i++ {
+		s = append(s, vByte())
+	}
+	for i := 0; i < nd*dsz; i++ {
+		s = append(s, 0xE0|byte(i)) // developer bytes: skipped unread, kept concrete
+	}
+	s = append(s, byte(j))
+	for i := 0; i < j+1; i++ {
+		s = append(s, vByte())
+	}
+	var buf [64]byte
+	copy(buf[:], s)
+	vFeed(&d, buf[:])
+	d.bytes.limit = len(s)
+	before := vSnap(&d)
+	act, _ := f.Activity()
+	err := d.decodeFileData()
+	after := vSnap(&d)
+	vAssert(err == nil, "C13.redef.sequence-decodes")
+	vAssert(d.bytes.n == len(s), "C13.redef.consumed-by-latest-definition")
+	cnt := vCounts(act)
+	for q := 0; q < 15; q++ {
+		exp := 0
+		if q == k || q == j {
+			exp = 1
+		}
+		vAssert(cnt[q] == exp, "C13.redef.routed")
+	}
+	dm := d.defmsgs[k]
+	ok := dm != nil && dm.localMsgType == uint8(k) && dm.arch == vArch(big) && dm.globalMsgNum == vSlotMsgs[k] &&
+		int(dm.fields) == nf && len(dm.fieldDefs) == nf && len(dm.devDataFieldDescs) == nd
+	if ok {
+		for i := 0; i < nf; i++ {
+			ok = ok && dm.fieldDefs[i] == fieldDef{num: byte(250 + i), size: byte(fsz), btype: types.BaseByte}
+		}
+		for i := 0; i < nd; i++ {
+			ok = ok && dm.devDataFieldDescs[i] == devDataFieldDesc{fieldNum: byte(i), size: byte(dsz), devDataIndex: 0}
+		}
+	}
+	vAssert(ok, "C13.redef.slot-holds-exactly-the-latest-definition")
+	for q := 0; q < 16; q++ {
+		if q != k {
+			vAssert(vSlotUnchanged(before[q], after[q]), "C13.redef.other-slots-untouched")
+		}
+	}
+	vReached("end")
+}
